@@ -54,6 +54,18 @@ def run(ctx):
         panel.classify(ctx, term, KEYS)
         ctx.log("termination stress: %d rounds, %s cycles, %d violations" % (term["evaluations"], term.get("stats", {}).get("cycles"),
                                                                             len(term.get("violations", []))))
+        # the collection step at the grain of the code's atomic operations (spec/ValveCollect.tla): metering goes on while
+        # overlapping rounds collect; a swap keeps Conservation, load-then-store loses / double-charges
+        vc = lib.require_ok(lib.run_tlc(ctx, "ValveCollect", "ValveCollect_mc.cfg", {"DEV": ""}, tag="valvecollect", workers=2), "ValveCollect")
+        vneg = lib.run_tlc(ctx, "ValveCollect", "ValveCollect_mc.cfg", {"DEV": '"LoadThenStore"'}, tag="valvecollect_neg", workers=2, expect_violation=True)
+        if vneg.ok or vneg.violated != "Conservation":
+            raise lib.Inconclusive("ValveCollect with LoadThenStore should violate Conservation (got %s)" % vneg.violated)
+        col = lib.run_go(ctx, "server", "TestVerifC16Collect", tag="collect", timeout=900, prefixes=("c15", "c16", "c17", "shared"))
+        if col.get("_died"):
+            raise lib.Inconclusive("driver died: " + col.get("_stdout_tail", ""))
+        panel.classify(ctx, col, KEYS)
+        ctx.log("collection overlapping traffic: ValveCollect.tla %d states; %d upload rounds over %d metered bytes, %d violations" % (
+            vc.distinct, col["stats"].get("collect_rounds", 0), col["stats"].get("metered_bytes", 0), len(col.get("violations", []))))
         # ---- model checking
         one = dict(nu=1, init=(11, 12), creds={1: 2})
         two = dict(nu=2, init=(11, 21), creds={1: 1, 2: 2})
